@@ -327,7 +327,10 @@ def d4_paired_purge(ctx):
             ok = ok and o
             det += "%s: %s; " % (what, d)
         nx = [x for x in walk(idv) if is_call(x) and x[1].endswith("::next")]
-        ok = ok and bool(nx) and "vec::IntoIter" in nx[0][1]
+        # the loop walks the collected id list itself, by value or by reference, with no adaptor in between
+        ok = ok and bool(nx) and ("vec::IntoIter" in nx[0][1] or "slice::Iter" in nx[0][1]) and bool(coll) and \
+            any(strip_old(x) == coll[0] for x in walk(nx[0])) and \
+            not any(is_call(x, name_contains=a) for x in _above(nx[0], coll[0]) for a in ("Iterator::skip", "Iterator::take", "Iterator::filter", "Iterator::step_by", "Iterator::rev", "Iterator::skip_while", "Iterator::take_while"))
     ctx.chk.ob("D4", "every removed id is purged from the NAK-attribution tracker and from the I/O map (same loop, no early exit, no condition)", ok, det[:300], key="D4:both-purges-per-id")
     # the purge loop and the routing reset are under `len changed` only
     st = [(bb, si, s) for bi_ in [0] for (bb, si, s) in _deref_stores(f, up.get("last_selected_idx"), fa)]
@@ -567,6 +570,22 @@ def d5_add_once(ctx):
         a1 = strip_old(fa.val_operand(t2["args"][1], (b2, len(f.blocks[b2]["stmts"]))))
         ok = a0 == CONNS and any(is_call(x, stable=CREATEC) or is_call(x, stable=CREATE) for x in walk(a1)) and cfg.dominates(bb, b2) and not cfg.returns_reachable_avoiding({b2}, start=bb)
     ctx.chk.ob("D5", "whatever was created is appended to the connection list on every path", ok, "", key="D5:created-appended")
+
+
+def _above(e, stop):
+    """Sub-expressions of e down to, and not below, the sub-expression `stop`."""
+    out = [e]
+    if strip_old(e) == stop or not isinstance(e, tuple):
+        return out
+    for x in e[1:]:
+        if isinstance(x, tuple) and x:
+            if isinstance(x[0], str):
+                out += _above(x, stop)
+            else:
+                for y in x:
+                    if isinstance(y, tuple) and y and isinstance(y[0], str):
+                        out += _above(y, stop)
+    return out
 
 
 def calls_site_bb(cf):
